@@ -129,6 +129,15 @@ pub fn run(_ctx: &Ctx, rep: &mut Report) {
     }
     rep.guard("173,056 ordered (card, marks) pairs", acc.cases == 173_056, format!("{}", acc.cases));
     rep.add_space("ordering: every (card, marks) x (card', marks')", &acc, t0, "higher top mark => numerically greater; in particular marked > every unmarked card");
+    {
+        let mut items = Vec::new();
+        for c in d.iter().step_by(4) {
+            for m in 0..8u32 {
+                items.push(Case::w32("marks", &[c.word(), m, (m % 6)]));
+            }
+        }
+        super::history2(rep, judge, &items);
+    }
     let a = d[51].word();
     rep.sample(sample_json("marks", "2♣ flagged as pair", &format!("{:#x} > A♠ {:#x}: {}", a.flag_as_pair(), d[0].word(), a.flag_as_pair() > d[0].word())));
     rep.rule = "distinct (card, mark set, application order) triples and ordered pairs of marked cards; non-trivial = at least one mark set / pairs whose top marks differ (the ones the statement orders)".into();
